@@ -402,7 +402,11 @@ func (rn *run) buildRequest() (*http.Request, *scriptBody, []byte) {
 		}
 	case "connect_get":
 		method = http.MethodGet
-		query.Set("connect", "v1")
+		if cl.Base64 == "hdr" {
+			hdr.Set("Connect-Protocol-Version", "1") // the protocol version named by header instead of connect=v1
+		} else {
+			query.Set("connect", "v1")
+		}
 		query.Set("encoding", cl.Codec)
 		if cl.Comp != "" {
 			query.Set("compression", cl.Comp)
@@ -459,7 +463,7 @@ func (rn *run) buildRequest() (*http.Request, *scriptBody, []byte) {
 			p = rn.payload(f, cl.Codec, cl.Comp)
 		}
 		b64 := cl.Base64
-		if b64 == "" {
+		if b64 == "" || b64 == "hdr" {
 			if cl.Codec == "json" && cl.Comp == "" {
 				b64 = "0"
 			} else {
